@@ -114,4 +114,20 @@ var properties = map[string]*propDef{
 		RequiredProbes: []string{"iter_next", "iter_prev", "iter_anext", "iter_aprev", "iter_full_traversal_fwd", "iter_full_traversal_bwd", "iter_direction_reversal", "iter_view_ends_between_samples", "rollover"},
 		Units:          []unit{cesiumUnit("cesium-seq", "c10")},
 	},
+	"C03": {
+		Level: "exploration",
+		Rule: "cases are rapid-generated histories of open(start[, preset end]) / write / commit(end) / close / delete / reopen over up to 5 writers on one domain database, with timestamps drawn on, next to and inside earlier ranges; after every operation the pointer list (sorted, pairwise non-overlapping, non-empty, inside file length) and the enumerated domains with their bytes are compared with an interval-set model that decides which opens/commits must fail with a validation error and which must succeed; non-trivial = >=2 committed domains and >=1 rejected conflict; distinct = hash of (operation kinds, final domain layout)",
+		Real:  []string{"cesium/internal/domain (DB, index, writer, iterator, reader, file controller, delete) — real code, harness compiled into the package via -overlay", "x/go/telem time-range algebra"},
+		Stub:  []string{"disk: verifsim/simfs behind domain.Config.FS", "map iteration order: simrt.MapKeys"},
+		Assumptions: []string{
+			"interval-set model written from the property statement and the package's doc comments: open fails iff start (or the preset range) lies inside committed data; commit fails iff it would overlap another writer's committed range, end <= start, end < previous commit, or end > preset end; equal-to-previous-commit and empty commits are left open",
+			"file-size cap left at the default so that rollover does not change writer starts (rollover layouts are covered by C01)",
+			"deletes use a linear time->byte resolver (byte i of a domain belongs to timestamp start+i)",
+		},
+		RequiredProbes: []string{"open_rejected", "commit_overlaps_other", "commit_backwards", "commit_zero_or_negative_length", "delete_cut_domain", "reopen", "commit_ok"},
+		Units: []unit{{
+			Name: "cesium-domain", Module: "cesium", Package: "./internal/domain", Passes: allPasses,
+			QuickBudget: 20 * time.Second, QuickWorkers: 8, ThoroughBudget: 10 * time.Minute, ThoroughWorkers: 16,
+		}},
+	},
 }
